@@ -285,5 +285,19 @@ def leftmost(ctx, cfg, fs):
             if s2.kind == 'bool' and any(r.kind == 'call' and r.call.is_(r'Try>::branch$') and r.path == ['as Continue', '0'] for r in s2.roots) or (s2.kind == 'bool' and any(r.kind == 'call' and r.call.bb == c.bb for r in s2.roots)):
                 if somes and all(only_via_edge(it, s2.b, s2.target(True), s_) for s_ in somes):
                     guarded = True
+    # every position is a candidate start: the cursor only ever moves by ONE (skipping `width` positions after a consumed item
+    # would hide the first item of a block that follows an odd number of foreign items)
+    steps = []
+    for i, k, st in it.stmts():
+        if st['k'] == 'assign' and 'cur' in place_fields(st['lhs']) and st['lhs'][1] and st['lhs'][1][-1][0] == 'f' and st['lhs'][1][-1][2] == 'cur':
+            rs = provenance(it, st['rv']['op'], i, k, through=None) if st['rv']['k'] == 'use' else ([Root('bin', st['rv']['op'], [], (i, k), extra=st['rv'])] if st['rv']['k'] == 'bin' else [])
+            for r in rs:
+                if r.kind == 'bin' and r.extra['op'].startswith('Add') and (op_const(r.extra['b']) or {}).get('v') == 1 and 'cur' in place_fields(op_place(r.extra['a']) or [0, []]):
+                    steps.append('+1')
+                elif r.kind == 'bin' and r.path == ['0']:
+                    steps.append('+1' if (r.extra['op'].startswith('Add') and (op_const(r.extra['b']) or {}).get('v') == 1) else '%s by a variable amount' % r.extra['op'])
+                else:
+                    steps.append('%s:%s' % (r.kind, r.what))
+    ctx.ob('L.leftmost', 'ArgRangesIter::next:cursor-moves-by-one', bool(steps) and set(steps) == {'+1'}, 'ArgRangesIter::next assigns its cursor %s' % sorted(set(steps)), where=it.where(), cfg=cfg)
     ctx.ob('L.leftmost', 'ArgRangesIter::next:increasing-present-starts', bool(incs) and not dec and guarded,
            'ArgRangesIter::next only moves its cursor forward (+1, %d site(s)) and yields a position only when the item there is present: %s' % (len(incs), guarded), where=it.where(), cfg=cfg)
